@@ -36,7 +36,7 @@ class C15(Check):
             "malformed name was present")
     TIERS = {"quick": {"runs": 1600, "budget_s": 50}, "thorough": {"runs": 80000, "budget_s": 900}}
     ASSUMPTIONS = ["numeric components that only Python's int() accepts (+1, 1_0, leading zeros, non-ASCII digits) are not generated",
-                   "a bare root name is only used when no ancestor directory has the same name (otherwise the designation is ambiguous)"]
+                   "a bare root name is only used when no ancestor directory has the same name and no other directory of that name exists under cwd (otherwise the designation is ambiguous)"]
 
     def generate(self, rng: random.Random, r: int, tier: str) -> dict:
         nroots = rng.randint(1, 2)
@@ -48,7 +48,8 @@ class C15(Check):
             defs = []
             for _ in range(rng.randint(1, 4)):
                 depth = rng.choice([0, 1, 1, 2, 3, 4])
-                comps = [rn] + [rng.choice(NSC) for _ in range(depth)]
+                # a nested namespace may legally carry the root namespace's own name (vendor/sub/vendor/X.1.0.dsdl)
+                comps = [rn] + [(rn if rng.random() < 0.15 else rng.choice(NSC)) for _ in range(depth)]
                 short = rng.choice(SHORT)
                 name = ".".join(comps + [short])
                 ver = rng.choice([[1, 0], [0, 1], [255, 255], [0, 255], [255, 0], [rng.randint(0, 255), rng.randint(1, 255)]])
@@ -113,6 +114,13 @@ class C15(Check):
                 cwd = parent
             else:
                 cwd = rng.choice(["", "w", parent, roots[troots[0]]["dir"]])
+            if rstyle == "name":
+                # a bare root name is also a cwd-relative path: keep it unambiguous (no directory of that name under cwd
+                # other than the root itself)
+                for ri in troots:
+                    rn0 = roots[ri]["name"]
+                    if any(rn0 in d["name"].split(".")[1:-1] for d in roots[ri]["defs"]) and cwd == roots[ri]["dir"]:
+                        cwd = parent
             files = []
             for k in targets:
                 ri = uni.root_of[k]
